@@ -150,6 +150,50 @@ def activatesFunctionMacro (after : List PTok) : Bool :=
 /-- `apply_single_macro`, `num_params == 0`: is the single argument `arg` accepted as "no arguments"? -/
 def acceptsEmptyArgument (arg : List PTok) : Bool := (trimWhitespace arg).isEmpty
 
+/-! ### where the search goes on after an expansion (`apply_single_macro`, `User` arm -> `find_single_macro`)
+
+After `tokens.splice(pos..end, output)` the next `find_single_macro` scans from `early_function_pos` and accepts a
+function-like macro name (of an enabled macro other than the one just expanded) only when its `(` -- found behind
+white space of every kind, `trim_whitespace_and_endlines_start` -- lies at or beyond `next_pos = pos + tokens_added`:
+an invocation that *reaches out of* the replaced region (`SELECT(INC)(b)`: the region is `INC`, the `(` follows it).
+`early_function_pos` is `pos`, the first token of the region (`Gen.SourceMapTables.earlyFunctionPosIsRegionStart`);
+the region can end in a line break, because macro arguments keep a trailing `Endline` (`trimEndKeepsEndline`). -/
+
+/-- what the resumed scan distinguishes: the name of an enabled function-like macro other than the one just expanded,
+`(`, white space without / with a line break, anything else -/
+inductive RTok where
+  | fnName | leftParen | ws | endline | other
+  deriving DecidableEq, Repr
+
+def RTok.isWs : RTok → Bool
+  | .ws | .endline => true
+  | _ => false
+
+/-- `trim_whitespace_and_endlines_start` -/
+def skipAllWs : List RTok → List RTok
+  | [] => []
+  | t :: r => if t.isWs then skipAllWs r else t :: r
+
+/-- the loop of `find_single_macro` over `ts = tokens[i..]`: the first function-like macro name whose `(` (at
+`activate_pos = tokens.len() - trimmed.len()`) is not in front of `nextPos` -/
+def scanFrom (nextPos : Nat) : Nat → List RTok → Option Nat
+  | _, [] => none
+  | i, t :: r =>
+    if t == .fnName && (match skipAllWs r with
+        | .leftParen :: _ => decide (nextPos ≤ i + 1 + (r.length - (skipAllWs r).length))
+        | _ => false) then some i
+    else scanFrom nextPos (i + 1) r
+
+/-- `early_function_pos` of the `MacroSearchPosition` the `User` arm returns: `pos` on the pinned code; the other branch is
+what seeded mutant C14-7 does (`if tokens_added > 0 { new_end - 1 } else { pos }`) -/
+def resumeIndex (regionStart : Bool) (pos added : Nat) : Nat :=
+  if regionStart || added == 0 then pos else pos + added - 1
+
+/-- the scan after `region` has replaced an invocation behind `pre`, with `rest` following -/
+def resumedScan (regionStart : Bool) (pre region rest : List RTok) : Option Nat :=
+  let start := resumeIndex regionStart pre.length region.length
+  scanFrom (pre.length + region.length) start ((pre ++ region ++ rest).drop start)
+
 /-! ### directive recognition (`preprocess_included_file`, preprocess/src/preprocess.rs)
 
 The loop that drives the `TokenStream` keeps a four-state machine per line: a `#` that is the first
